@@ -17,13 +17,14 @@ import CoolerModel.Drv.C17
 import CoolerModel.Drv.C05
 import CoolerModel.Drv.C08
 import CoolerModel.Drv.C16
+import CoolerModel.Drv.C09
 /-!
 Correspondence driver: one JSON request per input line `{"op": "<Cxx.name>", "args": {…}}`,
 one JSON answer per output line.  Executes the very definitions the theorems are about.
 -/
 open Lean Cooler.Drv
 
-def handlers : List Handler := [Cooler.Drv.C20.handle, Cooler.Drv.C04.handle, Cooler.Drv.C15.handle, Cooler.Drv.C03.handle, Cooler.Drv.C07.handle, Cooler.Drv.C01.handle, Cooler.Drv.C02.handle, Cooler.Drv.C12.handle, Cooler.Drv.C19.handle, Cooler.Drv.C18.handle, Cooler.Drv.C14.handle, Cooler.Drv.C10.handle, Cooler.Drv.C11.handle, Cooler.Drv.C13.handle, Cooler.Drv.C17.handle, Cooler.Drv.C05.handle, Cooler.Drv.C08.handle, Cooler.Drv.C16.handle]
+def handlers : List Handler := [Cooler.Drv.C20.handle, Cooler.Drv.C04.handle, Cooler.Drv.C15.handle, Cooler.Drv.C03.handle, Cooler.Drv.C07.handle, Cooler.Drv.C01.handle, Cooler.Drv.C02.handle, Cooler.Drv.C12.handle, Cooler.Drv.C19.handle, Cooler.Drv.C18.handle, Cooler.Drv.C14.handle, Cooler.Drv.C10.handle, Cooler.Drv.C11.handle, Cooler.Drv.C13.handle, Cooler.Drv.C17.handle, Cooler.Drv.C05.handle, Cooler.Drv.C08.handle, Cooler.Drv.C16.handle, Cooler.Drv.C09.handle]
 
 def dispatch (op : String) (args : Json) : Json :=
   let rec go : List Handler → Json
